@@ -149,7 +149,7 @@ impl Prop for C01 {
     }
     fn plan(&self, tier: Tier) -> Plan {
         match tier {
-            Tier::Quick => Plan { cases: 3_000_000, tape_len: 160 },
+            Tier::Quick => Plan { cases: 6_000_000, tape_len: 160 },
             Tier::Thorough => Plan { cases: 80_000_000, tape_len: 260 },
         }
     }
